@@ -4,9 +4,18 @@ Workload: 2 (enumerated) or 3 (random) Sessions on ONE SQLite file (busy timeout
 each with a short operation sequence over two shared rows; every interleaving of the
 sequences at operation granularity is executed in a single thread.  Operations: load,
 refresh, modify payload / other column (unique value per write), delete, flush, commit,
-rollback.  Three version styles: client-side integer counter, ``version_id_generator``
-callable (uuid), server-side counter (trigger, ``version_id_generator=False``).  Both
-``expire_on_commit`` settings.
+rollback, and NULLing an attribute by assignment or by ``del obj.attr``.  Six mappings:
+single table with client-side integer counter, ``version_id_generator`` callable (uuid),
+server-side counter (trigger, ``version_id_generator=False``); a class mapped to
+``join(a, b)`` without inheritance with the version column in ``a`` resp. in ``b``; joined
+table inheritance with the counter in the base table - so that a flush's net changes can
+lie entirely in the table that does NOT hold the version column.  Both
+``expire_on_commit`` settings.  (Quick: every pair x interleaving once, mapping and
+expire_on_commit rotate with index and seed; thorough: all combinations.)
+
+Mechanism names carry where the change was: ``-other-table-only`` when every changed column
+of the row lives outside the version table, ``-other-table-attribute-delete`` when those
+columns were all NULLed with ``del obj.attr``.
 
 Oracle (per-row version ledger).  Before a flush the harness reads the rows *through the
 flushing session's own connection* (committed state + its own uncommitted writes) and
@@ -35,6 +44,7 @@ it unreachable.
 """
 from __future__ import annotations
 
+import enum
 import itertools
 
 META = {
@@ -51,7 +61,9 @@ META = {
     "exhaustive": {"quick": False, "thorough": True},
     "require": ["flushes_with_dml", "stale_predicted", "stale_raised", "successful_updates",
                 "successful_deletes", "locked_aborts", "versioned_update_stmts",
-                "versioned_delete_stmts", "final_states_compared", "interleavings"],
+                "versioned_delete_stmts", "final_states_compared", "interleavings",
+                "flushes_changing_only_the_non_version_table", "stale_predicted_other_table_only",
+                "version_advanced_for_other_table_change", "attribute_nulled_by_del", "attribute_nulled_by_none"],
     "assumptions": ["reads through the flushing session's connection show committed rows plus that session's own uncommitted writes",
                     "pysqlite legacy transaction control: SELECT does not open a transaction, so a session's loaded state can go stale"],
 }
@@ -72,8 +84,14 @@ SEQS = [
     [("load", 1), ("commit",), ("mod", 1, "other"), ("commit",)],
     [("load", 2), ("del", 2), ("flush",), ("commit",)],
     [("load", 1), ("mod", 1, "payload"), ("commit",), ("mod", 1, "payload"), ("commit",)],
+    [("load", 1), ("mod", 1, "other"), ("commit",)],
+    [("load", 1), ("delattr", 1, "other"), ("commit",)],
+    [("load", 1), ("setnone", 1, "other"), ("commit",)],
+    [("load", 1), ("delattr", 1, "payload"), ("mod", 2, "other"), ("commit",)],
+    [("load", 1), ("setnone", 1, "payload"), ("flush",), ("mod", 1, "other"), ("commit",)],
 ]
-QUICK_SEQS = [0, 1, 2, 3, 5, 8, 9]
+QUICK_SEQS = [0, 1, 2, 3, 5, 8, 9, 12, 13, 14]
+STYLES = ("int", "uuid", "server", "join_a", "join_b", "inh")
 
 
 def interleavings(lens):
@@ -110,11 +128,13 @@ class World:
 
         self.ctx, self.sa, self.orm, self.rig, self.style = ctx, sa, orm, rig, style
         self.cls = rig.VERSIONED[style]
-        self.table = self.cls.__table__.name
+        self.spec = rig.VSTYLE[style]
+        self.ver_cols = set(self.spec["ver_cols"])
         self.path = ctx.tmppath(".db")
         self.spy = dbapi_spy.Spy()
         self.engine = self.spy.engine(self.path, poolclass=NullPool, connect_kw={"timeout": 0})
-        self.cls.__table__.create(self.engine)
+        md = rig.Base44.metadata
+        md.create_all(self.engine, tables=[md.tables[t] for t in self.spec["tables"]])
         if style == "server":
             with self.engine.begin() as c:
                 c.exec_driver_sql(rig.VSERVER_DDL)
@@ -127,15 +147,20 @@ class World:
 
     def reset(self):
         v0 = "'v0'" if self.style == "uuid" else "1"
-        self.obs.execute("DELETE FROM %s" % self.table)
+        for t in reversed(self.spec["tables"]):
+            self.obs.execute("DELETE FROM %s" % t)
         for r in ROWS:
-            self.obs.execute("INSERT INTO %s (id, ver, payload, other) VALUES (%d, %s, 'p0-%d', 'o0-%d')"
-                             % (self.table, r, v0, r, r))
+            for q in self.spec["inserts"]:
+                self.obs.execute(q % {"r": r, "v": v0})
         self.spy.clear()
         return {r: {"payload": "p0-%d" % r, "other": "o0-%d" % r, "updates": 0} for r in ROWS}
 
     def committed(self):
-        return {r[0]: r for r in self.obs.execute("SELECT id, ver, payload, other FROM %s" % self.table).fetchall()}
+        return {r[0]: r for r in self.obs.execute(self.spec["select"]).fetchall()}
+
+    def table_ids(self):
+        """ids present in each underlying table (a multi-table row must live or die as a whole)"""
+        return {t: sorted(r[0] for r in self.obs.execute("SELECT id FROM %s" % t).fetchall()) for t in self.spec["tables"]}
 
 
 class Sess:
@@ -145,14 +170,14 @@ class Sess:
         self.s = world.orm.Session(world.engine, autoflush=False, expire_on_commit=expire_on_commit)
         self.objs = {}
         self.pending_mod = {}     # row -> {col: value}
+        self.pending_kind = {}    # row -> {col: "set" | "none" | "del"}
         self.pending_del = set()
         self.txn_writes = []      # writes flushed in the open transaction
         self.has_write_lock = False
 
     def view(self):
         """rows as this session's connection sees them"""
-        return {r[0]: r for r in self.s.connection().exec_driver_sql(
-            "SELECT id, ver, payload, other FROM %s" % self.w.table).fetchall()}
+        return {r[0]: r for r in self.s.connection().exec_driver_sql(self.w.spec["select"]).fetchall()}
 
     def obj(self, r):
         o = self.objs.get(r)
@@ -168,8 +193,18 @@ class Sess:
             return None
         return o.__dict__.get("ver")
 
+    def where(self, r):
+        """mechanism suffix computed from the pending change of row r: which table the
+        changed columns live in relative to the version column, and how they were changed"""
+        cols = self.pending_mod.get(r) or {}
+        if cols and all(c not in self.w.ver_cols for c in cols):
+            kinds = {self.pending_kind.get(r, {}).get(c) for c in cols}
+            return "-other-table-attribute-delete" if kinds == {"del"} else "-other-table-only"
+        return ""
+
     def discard(self):
         self.pending_mod.clear()
+        self.pending_kind.clear()
         self.pending_del.clear()
         self.txn_writes = []
         self.has_write_lock = False
@@ -230,9 +265,14 @@ def run_case(ctx, w, style, eoc, seqs, order, sample=False):
             elif lv is not None and view[r][1] != lv:
                 stale.append(r)
         must_fail = bool(stale or gone)
+        other_only = [r for r in sorted(S.pending_mod) if r not in S.pending_del and S.where(r)]
+        if other_only:
+            ctx.count("flushes_changing_only_the_non_version_table")
         if must_fail:
             ctx.count("stale_predicted")
             conflict = True
+            if any(r in other_only for r in stale):
+                ctx.count("stale_predicted_other_table_only")
         lock_conflict = writer_other(S)
         mark = w.spy.mark()
         try:
@@ -259,7 +299,8 @@ def run_case(ctx, w, style, eoc, seqs, order, sample=False):
                 vio("flush-succeeded-under-foreign-write-lock", "flush succeeded while %s another session holds the write lock" % S.name)
             if must_fail:
                 kinds = sorted({"delete" if r in S.pending_del else "update" for r in stale + gone})
-                vio("stale-%s-succeeded" % "-".join(kinds),
+                sfx = next((S.where(r) for r in stale + gone if r not in S.pending_del and S.where(r)), "")
+                vio("stale-%s-succeeded%s" % ("-".join(kinds), sfx),
                     "%s flushed rows %s with loaded versions %s but current rows were %s" % (
                         S.name, stale + gone, {r: S.loaded_ver(r) for r in stale + gone}, {r: view.get(r) for r in stale + gone}),
                     {"view_before": view})
@@ -280,8 +321,11 @@ def run_case(ctx, w, style, eoc, seqs, order, sample=False):
                 old, new = view[r], view2[r]
                 okver = (new[1] != old[1]) if style == "uuid" else (new[1] == old[1] + 1)
                 if not okver:
-                    vio("update-did-not-advance-version", "%s updated row %s: version %r -> %r" % (S.name, r, old[1], new[1]),
-                        {"before": old, "after": new})
+                    vio("update-did-not-advance-version" + S.where(r),
+                        "%s updated row %s (%s): version %r -> %r" % (S.name, r, S.pending_kind.get(r), old[1], new[1]),
+                        {"before": old, "after": new, "changed": cols, "how": S.pending_kind.get(r)})
+                elif S.where(r):
+                    ctx.count("version_advanced_for_other_table_change")
                 exp = {"payload": cols.get("payload", old[2]), "other": cols.get("other", old[3])}
                 if (new[2], new[3]) != (exp["payload"], exp["other"]):
                     if not must_fail:
@@ -289,6 +333,7 @@ def run_case(ctx, w, style, eoc, seqs, order, sample=False):
                 ctx.count("successful_updates")
                 S.txn_writes.append(("upd", r, dict(cols)))
             S.pending_mod.clear()
+            S.pending_kind.clear()
             S.pending_del.clear()
             S.has_write_lock = True
             if then_commit:
@@ -354,10 +399,12 @@ def run_case(ctx, w, style, eoc, seqs, order, sample=False):
                         S.s.refresh(o)
                         # refresh discards pending attribute changes on that object
                         S.pending_mod.pop(op[1], None)
+                        S.pending_kind.pop(op[1], None)
                     except sa_exc.InvalidRequestError:
                         S.s.expunge(o)
                         S.objs.pop(op[1], None)
                         S.pending_mod.pop(op[1], None)
+                        S.pending_kind.pop(op[1], None)
                 trace.append((S.name, "refresh", op[1], S.loaded_ver(op[1])))
             elif k == "mod":
                 r, col = op[1], op[2]
@@ -366,7 +413,45 @@ def run_case(ctx, w, style, eoc, seqs, order, sample=False):
                     val = "%s-%d" % (S.name, next(w.uniq))
                     setattr(o, col, val)
                     S.pending_mod.setdefault(r, {})[col] = val
+                    S.pending_kind.setdefault(r, {})[col] = "set"
                     trace.append((S.name, "mod", r, col, val, S.loaded_ver(r)))
+            elif k in ("setnone", "delattr"):
+                # NULL an attribute by assignment or by ``del obj.attr``; only a net change
+                # counts, so the current value is read first (this may refresh an expired
+                # object, which legitimately renews its loaded version)
+                r, col = op[1], op[2]
+                o = S.obj(r)
+                if o is not None and r not in S.pending_del and sa.inspect(o).persistent:
+                    try:
+                        cur = getattr(o, col)
+                    except orm_exc.ObjectDeletedError:
+                        cur = None
+                    if cur is not None:
+                        # net change <=> the COMMITTED value (what the row holds) is not NULL:
+                        # NULLing a value that was only assigned in this same flush on top of a
+                        # committed NULL leaves nothing to be flushed
+                        committed = sa.inspect(o).committed_state.get(col, cur)
+                        if isinstance(committed, enum.Enum):
+                            # assigned while expired: the committed value is unknown (NO_VALUE),
+                            # so whether NULLing is a net change cannot be told -- op skipped
+                            ctx.count("nulling_skipped_unknown_committed_value")
+                            continue
+                        if k == "delattr":
+                            delattr(o, col)
+                        else:
+                            setattr(o, col, None)
+                        if committed is not None:
+                            S.pending_mod.setdefault(r, {})[col] = None
+                            S.pending_kind.setdefault(r, {})[col] = "del" if k == "delattr" else "none"
+                        else:
+                            S.pending_mod.get(r, {}).pop(col, None)
+                            S.pending_kind.get(r, {}).pop(col, None)
+                            if not S.pending_mod.get(r):
+                                S.pending_mod.pop(r, None)
+                                S.pending_kind.pop(r, None)
+                            ctx.count("nulling_without_net_change")
+                        ctx.count("attribute_nulled_" + ("by_del" if k == "delattr" else "by_none"))
+                        trace.append((S.name, k, r, col, S.loaded_ver(r)))
             elif k == "del":
                 r = op[1]
                 o = S.obj(r)
@@ -391,7 +476,9 @@ def run_case(ctx, w, style, eoc, seqs, order, sample=False):
     final = w.committed()
     ctx.count("final_states_compared")
     exp_ids = sorted(model)
-    if sorted(final) != exp_ids:
+    if violated:
+        pass        # already reported at the flush that went wrong; the serial model is void from there on
+    elif sorted(final) != exp_ids:
         vio("final-rows-differ-from-serial-model", "rows present %s, model %s" % (sorted(final), exp_ids), {"final": final, "model": model})
     else:
         for r in exp_ids:
@@ -402,6 +489,10 @@ def run_case(ctx, w, style, eoc, seqs, order, sample=False):
             elif style != "uuid" and row[1] != 1 + m["updates"]:
                 vio("final-version-differs-from-committed-update-count", "row %s version %s after %s committed updates" % (r, row[1], m["updates"]),
                     {"final": final, "model": model})
+    if len(w.spec["tables"]) > 1:
+        tids = w.table_ids()
+        if any(ids != sorted(final) for ids in tids.values()):
+            vio("multi-table-row-partially-present", "ids per table %s, joined rows %s" % (tids, sorted(final)))
     if w.spy.open:
         vio("connection-left-open", "open connections after closing all sessions: %s" % list(w.spy.open))
     ctx.case(desc, nontrivial=conflict)
@@ -413,7 +504,7 @@ def run_case(ctx, w, style, eoc, seqs, order, sample=False):
 
 def run(ctx):
     rng = ctx.rng
-    styles = ("int", "uuid", "server")
+    styles = STYLES
     worlds = {}
     try:
         for st in styles:
@@ -424,16 +515,28 @@ def run(ctx):
             for bi in cat:
                 seqs = [SEQS[ai], SEQS[bi]]
                 for order in interleavings([len(SEQS[ai]), len(SEQS[bi])]):
-                    for st in styles:
-                        idx += 1
+                    idx += 1
+                    if ctx.quick:
+                        # quick: every (pair, interleaving) once, the mapping style and the
+                        # expire_on_commit flag rotate with the index and the seed
                         if not ctx.mine(idx):
                             continue
                         if not ctx.budget_ok():
                             break
-                        eoc = bool((idx // ctx.nshards) % 2) if ctx.quick else None
-                        for e in ([eoc] if eoc is not None else [True, False]):
-                            ctx.count("interleavings")
-                            run_case(ctx, worlds[st], st, e, seqs, order, sample=(idx in (41, 4001)))
+                        n = idx // ctx.nshards + ctx.seed
+                        combos = [(styles[n % len(styles)], bool((n // len(styles)) % 2)),
+                                  (styles[(n + 3) % len(styles)], not bool((n // len(styles)) % 2))]
+                    else:
+                        combos = [(st, e) for st in styles for e in (True, False)]
+                    for ci, (st, e) in enumerate(combos):
+                        if ctx.thorough:
+                            if not ctx.mine(idx * len(combos) + ci):
+                                continue
+                            if not ctx.budget_ok():
+                                break
+                        ctx.count("interleavings")
+                        ctx.seen("styles_run", st)
+                        run_case(ctx, worlds[st], st, e, seqs, order, sample=(idx in (41, 4001) and ci == 0))
         ctx.count("enumeration_done")
         # random: three sessions, random sequences over the op alphabet
         nrand = ctx.pick({"quick": 100, "thorough": 4000})
@@ -449,8 +552,10 @@ def run(ctx):
                     r = rng.choice(ROWS)
                     if q < 0.2:
                         sq.append(("load", r))
-                    elif q < 0.55:
+                    elif q < 0.45:
                         sq.append(("mod", r, rng.choice(["payload", "other"])))
+                    elif q < 0.55:
+                        sq.append((rng.choice(["setnone", "delattr"]), r, rng.choice(["payload", "other"])))
                     elif q < 0.65:
                         sq.append(("del", r))
                     elif q < 0.75:
